@@ -75,6 +75,10 @@ def run(ctx):
            'every fixed-point iteration walks the whole reducer tuple from the start', ok,
            f'{len(loops)} loops over the reducer tuple; iterates `{norm(lp.iter)[:60]}`')
 
+    _reduction_loop(ctx)
+    from .c03 import explanation_configuration
+    explanation_configuration(ctx, 'C18.R6')
+
     # ---- R2 ----------------------------------------------------------------------
     ctx.rule('C18.R2', 'each hint_sane= argument of enqueue_hint_child_sane and each HintDataError(…) argument is defined '
              'by a sanifying producer (sanify_hint_child, the generic-bases getter, the subclass getter, or the '
@@ -338,5 +342,113 @@ def _tower_merge(ctx, om, sf):
                    'with is_pep484_tower the resulting overrides are the user\'s plus float → float | int and complex → '
                    'complex | float | int (a conflicting user entry for float / complex is rejected)', ok, detail)
     finally:
+        F.stubs.clear()
+        F.stubs.update(saved)
+
+
+def _reduction_loop(ctx):
+    """R5 by interpretation: reduce_hint (the fixed-point loop) with the real overrides reducer and a scripted second
+    reducer, over abstract hints and abstract sanified-hint metadata."""
+    from sa.fold import AObj, FuncVal, _Abort, _PyCallable, _Raise, _call_function
+    from sa.gen import AConf
+    from . import _gen
+    repo = ctx.repo
+    F = _gen.engines(ctx)[0].f
+    m = repo.mod(REDMAIN)
+    fn = F.const(REDMAIN, 'reduce_hint')
+    ctx.require(isinstance(fn, FuncVal), 'anchor vanished: reduce_hint')
+    ctx.rule('C18.R5', 'overrides compose, decided by interpreting reduce_hint with the repository\'s own overrides reducer and a '
+             'scripted second reducer (Meters → float) over abstract hints: an overridden hint is replaced (float → float | '
+             'int); a hint that only *reduces to* an overridden hint is replaced as well (Meters); an override applies '
+             'beneath another override\'s replacement (float inside Vector → List[float]); a hint is not expanded again '
+             'inside its own replacement')
+    # the reducer tuple and the overrides reducer, by role (as in R1)
+    tup = None
+    for x in walk_shallow(m.defs['reduce_hint']):
+        if isinstance(x, ast.For):
+            for nm in [y.id for y in ast.walk(x.iter) if isinstance(y, ast.Name)]:
+                v = F.module_env(REDMAIN).get(nm)
+                if isinstance(v, tuple) and len(v) >= 2 and all(isinstance(e, FuncVal) for e in v):
+                    tup = (nm, v)
+    ctx.require(tup is not None, 'anchor vanished: the reducer tuple reduce_hint iterates')
+    ov = tup[1][0]
+
+    class _H(AObj):
+        def __init__(self, n):
+            self.n = n
+
+        def __repr__(self):
+            return f'<{self.n}>'
+
+    class _Sane(AObj):
+        def __init__(self, hint, table):
+            self.hint, self.hint_recursable_to_depth = hint, dict(table)
+            self.typearg_to_hint = {}
+
+        def __repr__(self):
+            return f'<sane {self.hint!r} recursable={list(self.hint_recursable_to_depth)}>'
+
+    class _OV(AObj):
+        def __init__(self, pairs):
+            self.pairs = pairs
+
+        def get(self, k, default=None):
+            for a, b in self.pairs:
+                if a is k:
+                    return b
+            return default
+
+        def keys(self):
+            return {a for a, _ in self.pairs}
+
+        def __contains__(self, k):
+            return any(a is k for a, _ in self.pairs)
+
+        def __len__(self):
+            return len(self.pairs)
+    FLOAT, FI, METERS, VEC, LISTF, OTHER = _H('float'), _H('float | int'), _H('Meters'), _H('Vector'), _H('List[float]'), _H('str')
+    conf = AConf(hint_overrides=_OV([(FLOAT, FI), (VEC, LISTF)]))
+    saved, saved_i = dict(F.stubs), F.isinstance_hook
+    table_of = lambda p: dict(getattr(p, 'hint_recursable_to_depth', {}) or {}) if p is not None else {}
+    HS = 'beartype._check.cls.hint.hintsane.'
+    RR = 'beartype._check.convert._reduce._redrecurse.'
+    F.stubs[RR + 'make_hint_sane_recursable'] = lambda e, a, k: _Sane(
+        k['hint_nonrecursable'], {**table_of(k.get('hint_parent_sane')), k['hint_recursable']: 1})
+    F.stubs[HS + 'make_hint_sane'] = lambda e, a, k: _Sane(k.get('hint', a[0] if a else None), table_of(k.get('hint_parent_sane')))
+    F.stubs[RR + 'is_hint_recursive'] = lambda e, a, k: any(x is k['hint'] for x in table_of(k.get('hint_parent_sane')))
+    F.stubs['beartype._util.error.utilerrraise.reraise_exception_placeholder'] = \
+        lambda e, a, k: (_ for _ in ()).throw(_Abort(f'reduce_hint re-raises {k.get("exception", a[0] if a else None)!r}'))
+
+    def ih(o, c):
+        if isinstance(o, (_H, _Sane)):
+            return isinstance(o, _Sane) and 'HintSane' in repr(c)
+        return saved_i(o, c) if saved_i else None
+    F.isinstance_hook = ih
+    other = _PyCallable(lambda **kw: FLOAT if kw['hint'] is METERS else kw['hint'])
+    old = F.patch_global(REDMAIN, tup[0], (ov, other))
+    olds2 = [(n_, F.patch_global(REDMAIN, n_, _H(n_))) for n_ in ('HINT_SANE_IGNORABLE', 'HINT_IGNORABLE') if n_ in F.module_env(REDMAIN)]
+    cases = [
+        ('overridden-hint', FLOAT, None, FI),
+        ('hint-that-reduces-to-an-overridden-hint', METERS, None, FI),
+        ('unrelated-hint', OTHER, None, OTHER),
+        ('override-beneath-another-replacement', FLOAT, _Sane(LISTF, {VEC: 1}), FI),
+        ('not-expanded-inside-its-own-replacement', VEC, _Sane(LISTF, {VEC: 1}), VEC),
+        ('not-expanded-inside-its-own-replacement(self-containing)', FLOAT, _Sane(FI, {FLOAT: 1}), FLOAT),
+    ]
+    try:
+        for name, hint, parent, want in cases:
+            try:
+                out = _call_function(F, fn, [], dict(call_curr=AObj(), hint=hint, conf=conf, hint_parent_sane=parent), 1)
+            except (_Abort, _Raise) as ex:
+                ctx.require(False, f'cannot interpret reduce_hint ({name}): {ex}')
+            got = getattr(out, 'hint', out)
+            ctx.ob('C18.R5', f'reduce_hint:{name}', m.where(fn.node),
+                   f'{hint!r}' + (f' beneath {parent!r}' if parent is not None else '') + f' reduces to {want!r}', got is want,
+                   f'evaluates to {out!r}')
+    finally:
+        F.patch_global(REDMAIN, tup[0], old)
+        for n_, o_ in olds2:
+            F.patch_global(REDMAIN, n_, o_)
+        F.isinstance_hook = saved_i
         F.stubs.clear()
         F.stubs.update(saved)
